@@ -58,6 +58,9 @@ def cells(tier, seed):
     for n in range(0, 3):
         out.append({"k": "module", "n": n})
         out.append({"k": "twomods", "n": n})
+    for q in ("'", '"'):
+        for n in range(1, b["gap_len"] + 1):
+            out.append({"k": "strnl", "quote": q, "n": n})
     for i in range(len(INNER)):
         for n in range(1, b["gap_len"] + 1):
             out.append({"k": "inner", "i": i, "n": n})
@@ -235,6 +238,29 @@ def run(ctx, cell):
             ctx.check(e.pos.line == exp, "C20:module:wrong-line",
                       lambda: {"reported": int(e.pos.line), "expected": int(exp)})
         return [out.kind, str(e.pos.filename) if e.pos is not None else None]
+    if k == "strnl":
+        # line breaks INSIDE a string literal count like any other: the fault sits behind a multi-line string
+        ctx.reach("fault")
+        q = cell["quote"]
+        g = ctx.str("g", cell["n"])
+        for ch in list(g):
+            ctx.assume(ch != q)
+            ctx.assume(ch != "\\")
+        text = "def a = " + q + "x" + g + "y" + q + ";\ndef f(x) do\n  undefined_name\nend;\nf(1)"
+        base = 1 + count_nl(list(g))
+        out = run_ckl(text, name="prog.ckl")
+        detail = lambda: {"text": str(text), "reported": str(out.exc.pos) if out.exc is not None else None,
+                          "stack": [str(x) for x in out.exc.stacktrace] if out.exc is not None else None,
+                          "expected_line": int(base + 2)}
+        if out.kind != "rt":
+            ctx.fail("C20:strnl:unexpected-outcome-%s" % out.kind, detail)
+            return out
+        e = out.exc
+        ctx.check(e.pos is not None and e.pos.filename == "prog.ckl" and e.pos.line == base + 2,
+                  "C20:strnl:wrong-line-behind-a-multi-line-string", detail)
+        st = [str(x) for x in e.stacktrace]
+        ctx.check(len(st) == 1 and ("prog.ckl:%d:" % int(base + 4)) in st[0], "C20:strnl:stacktrace-wrong-line-behind-a-multi-line-string", detail)
+        return [out.kind, e.pos.line if e.pos is not None else None]
     if k == "twomods":
         # two module files with the same text under different names: an error raised in one names that one
         ctx.reach("fault")
